@@ -458,8 +458,8 @@ func genValue(r *rand.Rand, n *Node) *Input {
 		if n.Ty == "bool" {
 			maxv = 1
 		}
-		if genNaN && n.K == "prim" && n.Ty == "float" && r.Intn(100) < nanPct {
-			return val(nanV)
+		if genNaN && n.K == "prim" && (n.Ty == "float" || n.Ty == "time") && r.Intn(100) < nanPct {
+			return val(nanV) // NaN; for a time: the zero instant in another zone
 		}
 		if r.Intn(100) < 25 {
 			return val(0)
